@@ -6,6 +6,8 @@ sel="$*"
 for d in seeded/*/; do
   n=$(basename "$d"); id=${n%%-*}
   if [ -n "$sel" ] && ! echo " $sel " | grep -q " $id "; then continue; fi
+  # ONLY=<substring>: restrict to directories whose name contains it (e.g. ONLY=-r4-)
+  if [ -n "${ONLY:-}" ] && [[ "$n" != *"$ONLY"* ]]; then continue; fi
   patch="$PWD/${d%/}/patch.diff"; [ -f "$PWD/${d%/}/patch.rebased.diff" ] && patch="$PWD/${d%/}/patch.rebased.diff"
   line=$(tools/try_mutant.sh "$patch" "$id" 2>&1 | tail -1)
   echo "$n :: $line" | cut -c1-260
